@@ -28,6 +28,7 @@ import cardillo.solver as cs
 from cardillo.solver.solution import Solution, load_solution, save_solution
 from vk import kit as K
 from vk import npshim, smt
+from vk import sym as S
 from vk.registry import bounded, contract, static
 
 LEVEL = "proof"
@@ -337,3 +338,85 @@ def _truncated(name):
 
 for _name in ("BackwardEuler", "Rattle", "Moreau", "ScipyIVP", "ScipyDAE"):
     contract("C20", f"truncated-run/{_name}", samples=0, replayable=False, timeout=30)(_truncated(_name))
+
+
+# --------------------------------------------------------------------------- frame: later steps do not modify stored rows
+def _stored_rows_frame(name):
+    """two consecutive steps of the real solve() loop (loop cut) from an arbitrary solver state: every row that was in
+    the output lists after the first step is still there, unchanged, after the second (the lists hold values, not views
+    of arrays that the next step updates in place - the defect class found in Riks.solve, C23)"""
+
+    def c(k):
+        if not k.sym:
+            raise K.Reject("symbolic only")
+        import cardillo.solver.backward_euler as be
+        import cardillo.solver.moreau as mo
+        import cardillo.solver.rattle as ra
+        from contracts import C17
+        from contracts.C21 import _StepHelper
+
+        module, cls, state, lists = {"BackwardEuler": (be, be.BackwardEuler, ("xn", "yn", "tn", "qn", "un"), ("t", "q", "u")),
+                                     "Rattle": (ra, ra.Rattle, ("x1n", "y1n", "x2n", "y2n", "tn", "qn", "un"), ("t", "q", "u")),
+                                     "Moreau": (mo, mo.Moreau, ("tn", "qn", "un", "P_Nn", "P_Fn", "P_gn", "P_gamman"), ("q", "u"))}[name]
+        k.covers(cls.solve)
+        snaps = []
+
+        def is_rows(v):
+            return isinstance(v, list) and len(v) > 0 and all(isinstance(e, (np.ndarray, S.Sym, float, int, np.floating)) for e in v)
+
+        class H(_StepHelper):
+            def one(self_, it):
+                return (S.var("t_a"), S.var("t_b"))
+
+            def back_edge(self_, loc):
+                self_.back = dict(loc)
+                snaps.append({nm: [np.array(e, dtype=object).copy() for e in v] for nm, v in loc.items() if is_rows(v) and not nm.startswith("_")})
+
+        real_helper = C17._StepHelper
+        C17._StepHelper = H
+        real_cb = C17.SysStub.step_callback
+
+        def cb_in_place(self_, t, q, u):
+            """like the real System.step_callback: the new values are written into the arrays passed in, which are returned"""
+            qn, un = real_cb(self_, t, np.array(q, dtype=object).copy(), np.array(u, dtype=object).copy())
+            q[:] = qn
+            u[:] = un
+            return q, u
+
+        C17.SysStub.step_callback = cb_in_place
+        try:
+            def prep(solver, rec):
+                if name == "BackwardEuler":
+                    solver.prox = C17._fresh_fn(rec, "prox")
+                    solver.J_x = lambda x, y: C17.mat(S.symarray("Jx", (solver.nx, solver.nx)))
+                elif name == "Rattle":
+                    solver.prox1 = C17._fresh_fn(rec, "prox1_")
+                    solver.prox2 = C17._fresh_fn(rec, "prox2_")
+                    solver._J_x1 = lambda x, y: C17.mat(S.symarray("Jx1", (solver.nx1, solver.nx1)))
+                else:
+                    def prox(un1, P_N, P_F):
+                        rec.n += 1
+                        return S.symarray(f"proxN{rec.n}_", len(P_N)), S.symarray(f"proxF{rec.n}_", len(P_F))
+
+                    solver.prox = prox
+
+            C17._run_step(k, module, cls, state, prep, lists)
+        finally:
+            C17._StepHelper = real_helper
+            C17.SysStub.step_callback = real_cb
+        k.prove("two consecutive steps reached their back edges", len(snaps) == 2)
+        if len(snaps) != 2:
+            return
+        a, b = snaps
+        k.prove(f"{name}: the same output lists exist after both steps {sorted(a)}", sorted(a) == sorted(b) and len(a) >= 2)
+        for nm in sorted(a):
+            k.prove(f"{name}: list `{nm}` grows by exactly one row per step", len(b.get(nm, [])) == len(a[nm]) + 1)
+            for i, row in enumerate(a[nm]):
+                if i < len(b.get(nm, [])):
+                    k.prove_eq(f"{name}: row {i - len(a[nm])} of `{nm}` stored by the earlier step is unchanged after the next step", b[nm][i], row)
+
+    return c
+
+
+for _name in ("BackwardEuler", "Rattle", "Moreau"):
+    contract("C20", f"stored-rows-frame/{_name}", samples=0, replayable=False, timeout=60, max_paths=60)(_stored_rows_frame(_name))
